@@ -179,6 +179,22 @@ Theorem C11_process_never_false_success :
 Proof. exact process_never_false_success. Qed.
 Print Assumptions C11_process_never_false_success.
 
+(* For EVERY requested server address — a TCP port, a Unix socket path in any spelling (symlinked directory,
+   `..`, `.`, doubled separators: the path is a byte string here, nothing is assumed about it), an abstract name —
+   the server started for it binds that address as given and reports it, so the client's string comparison
+   succeeds and it goes on to connect: a non-canonical socket path is not a reason to bail. *)
+Theorem C11_server_reports_requested_address :
+  forall a : saddr, report_of_started_server a = SOk true.
+Proof. exact server_reports_requested_address. Qed.
+Print Assumptions C11_server_reports_requested_address.
+
+Theorem C11_cold_start_any_address :
+  forall (a : saddr) later,
+    connect_with_retry later = true ->
+    connect_or_start ARefused (report_of_started_server a) later = None.
+Proof. exact cold_start_any_address. Qed.
+Print Assumptions C11_cold_start_any_address.
+
 (* ---------- well-formed but unservable requests do not disturb later requests ---------- *)
 
 (* The compiler map is shared by all connections.  For EVERY history of compile requests (any connections, any
@@ -263,3 +279,9 @@ Example ex_poison_order :
                       {| q_path := [1]; q_mtime := 6; q_probe_ok := false |} ])
   = [false; true; true; false].
 Proof. vm_compute. reflexivity. Qed.
+
+Example ex_non_canonical_socket_path :
+  (* "/t/link/../s" *)
+  connect_or_start ARefused (report_of_started_server (UdsPath [47; 116; 47; 108; 47; 46; 46; 47; 115])) [AOk] = None /\
+  connect_or_start ARefused (SOk false) [AOk] = Some EWrongAddr.
+Proof. vm_compute. split; reflexivity. Qed.
